@@ -31,6 +31,15 @@ func runRace(c Case) (*core.Violation, int) {
 	if !p.InDomain {
 		return nil, 0
 	}
+	noiseText := ""
+	var pn exec.Parsed
+	if c.NoiseProg != nil {
+		noiseText = c.NoiseProg.Text()
+		pn = exec.Parse(noiseText)
+		if !pn.InDomain {
+			return nil, 0
+		}
+	}
 	mode := c.StoreMode
 	if mode != store.ModeSuperset {
 		mode = store.ModeExact
@@ -57,12 +66,16 @@ func runRace(c Case) (*core.Violation, int) {
 	for i, t := range c.Tasks {
 		i, t := i, t
 		st, vars, flags := stores[t.StoreGroup], varsInst[t.VarsGroup], flagsInst[t.FlagsGroup]
+		pr := p.PR
+		if t.Noise {
+			pr = pn.PR
+		}
 		wg.Add(1)
 		go func() {
 			defer wg.Done()
 			<-start
 			for r := 0; r < raceReps; r++ {
-				outs[i] = append(outs[i], exec.Run(context.Background(), p.PR, vars, st, flags))
+				outs[i] = append(outs[i], exec.Run(context.Background(), pr, vars, st, flags))
 			}
 		}()
 	}
@@ -74,7 +87,11 @@ func runRace(c Case) (*core.Violation, int) {
 	base := make([]exec.Outcome, len(c.Tasks))
 	for i, t := range c.Tasks {
 		t.Faults = nil
-		base[i] = c.solo(text, t, flagsMap(t))
+		if t.Noise {
+			base[i] = c.solo(noiseText, t, flagsMap(t))
+		} else {
+			base[i] = c.solo(text, t, flagsMap(t))
+		}
 	}
 	for i := range c.Tasks {
 		for r, o := range outs[i] {
